@@ -92,6 +92,9 @@ class BreakerWorld:
             "_class_thresholds": cthr, "_clock": self.clock, "_state": st, "_opened_at": opened,
             "_probe_in_flight": probe, "_failures": self.failures, "_class_failures": cf, "_lock": self.lock,
         })
+        from pyvc.harness import adopt_unknown_fields
+        it.env_models.setdefault("clock", lambda it_, fn, a, k, n: 0.0)
+        adopt_unknown_fields(it, self.obj, ci, {}, set(self.obj.fields))
         self.thr, self.w, self.rt = thr.t, w.t, rt.t
         self.trip, self.cthr = trip, cthr
         last = z3.Real(fresh_name("last_now"))
